@@ -204,4 +204,17 @@ var props = []Prop{
 		Stubs:       []string{"exporter"},
 		Assumptions: commonAssumptions,
 	},
+	{
+		ID: "C12", Level: "model_checking",
+		Harnesses: []HSpec{
+			{Dir: "internal/pkg/input", Fn: "VF_C12_unmarshal", Split: 3},
+			{Dir: "internal/pkg/compiler", Fn: "VF_C12_pipeline_service", Split: 6, MaxStrLen: [2]int{10, 10}},
+			{Dir: "internal/pkg/compiler", Fn: "VF_C12_pipeline_misc", Split: 4, MaxStrLen: [2]int{10, 10}},
+			{Dir: "internal/cmd/runner", Fn: "VF_C12_printer"},
+		},
+		Bounds:      []string{"custom unmarshalers on every YAML value tree of depth <= 2, width <= 2 and on decoder failure; validate -> compile -> output validators on one service / parameter / decorator / meta whose strings (<= 3 quick, 4 thorough) and any-typed positions are arbitrary; aligned printer for every shipped step name at nesting depth 0..2; every executed instruction carries panic, bounds, nil-map, type-assertion and unwinding obligations"},
+		Outside:     []string{"yaml.v3's own parser (anchors, aliases, deep nesting, very long names)", "gonum's cycle enumeration time", "text/template, go/format, x/tools/imports", "arbitrary bytes before YAML decoding"},
+		Stubs:       []string{"yaml decoder -> nondet callback", "graph library -> abstract graph", "exporter"},
+		Assumptions: commonAssumptions,
+	},
 }
